@@ -328,6 +328,8 @@ def run(pid, tier, seed):
         obs += fmt_props.build(pid, P, R, tier, log_dir)
         import gen_props
         obs += gen_props.build(pid, P, R, tier, log_dir)
+        import scan_props
+        obs += scan_props.build(pid, P, R, tier, log_dir)
     results = []
     for ob in obs:
         t0 = time.time()
